@@ -382,6 +382,12 @@ func (g *Gen) maybeMacro(o *Op) {
 	}
 	for _, name := range present[g.R.Intn(len(present)):] {
 		o.X[name] = rng.Pick(g.R, xattrObjValues)
+		if g.R.Chance(1, 12) {
+			// an argument error: the path stops at the xattr's name (the call must fail cleanly, or expand nothing)
+			o.Macros = append(o.Macros, Macro{Path: name, Type: 0})
+			o.BadMacro = true
+			return
+		}
 		o.Macros = append(o.Macros, Macro{Path: name + ".cas", Type: 0})
 		if g.R.Bool() {
 			o.Macros = append(o.Macros, Macro{Path: name + ".crc", Type: 1})
